@@ -275,6 +275,132 @@ func execC17(r *kernel.Run, s C17Spec) {
 		r.Distinct(fmt.Sprintf("bits=%d boundary %s", s.PrimeBits, leafKind(p)))
 		deliver(id, "tamper-structure", kernel.Encode(t2), &st)
 	}
+	// structural faults on objects: an unexpected extra member (empty list, list of nulls, null, or a copy of
+	// a sibling). Members the decoder ignores change nothing, so only a crash counts here; in objects that
+	// decode into Go maps the extra member reaches the verifier's loops.
+	var objs []kernel.Path
+	kernel.Walk(tree, func(p kernel.Path, node any) {
+		if m, ok := node.(map[string]any); ok && len(m) > 0 {
+			objs = append(objs, append(kernel.Path{}, p...))
+		}
+	})
+	sort.Slice(objs, func(i, j int) bool { return objs[i].String() < objs[j].String() })
+	oKinds := map[string][]kernel.Path{}
+	var oNames []string
+	for _, p := range objs {
+		k := leafKind(p)
+		if _, ok := oKinds[k]; !ok {
+			oNames = append(oNames, k)
+		}
+		oKinds[k] = append(oKinds[k], p)
+	}
+	r.Stats().Probes["object-kinds"] = max(r.Stats().Probes["object-kinds"], len(oNames))
+	for k := 0; k < 3*s.Samples && len(objs) > 0; k++ {
+		ps := oKinds[oNames[hr.IntN(len(oNames))]]
+		p := ps[hr.IntN(len(ps))]
+		node, _ := kernel.Get(tree, p)
+		m := node.(map[string]any)
+		var names []string
+		for name := range m {
+			names = append(names, name)
+		}
+		sort.Strings(names)
+		var val any
+		alt := hr.IntN(4)
+		switch alt {
+		case 0:
+			val = []any{}
+		case 1:
+			val = []any{nil, nil}
+		case 2:
+			val = nil
+		default:
+			val = kernel.Clone(m[names[hr.IntN(len(names))]])
+		}
+		extra := []string{"zz_extra", "", names[0] + "_"}[hr.IntN(3)]
+		t2 := kernel.Clone(tree)
+		t2 = kernel.Set(t2, append(append(kernel.Path{}, p...), extra), val)
+		id := fmt.Sprintf("struct:extra%d%q@%s", alt, extra, p.String())
+		if !wanted(s.OnlyFault, id) {
+			continue
+		}
+		r.Probe("extra-member:" + leafKind(p))
+		r.Eval(1)
+		r.Fault("tamper-structure")
+		one := s
+		one.OnlyFault = []string{id}
+		markPending("C17", one, id)
+		_, why := verify(kernel.Encode(t2), &st)
+		clearPending()
+		if strings.HasPrefix(why, "panic") {
+			r.Violate("C17:verifier-panics", map[string]any{"fault": id}, "%s: %s", id, why)
+			return
+		}
+	}
+	// tails of response lists: every element from a random position onwards is altered at once. One
+	// delivery covers all later positions of the list: a verifier that stops looking after the first
+	// few rounds of a many-round component accepts it.
+	var lists []kernel.Path
+	kernel.Walk(tree, func(p kernel.Path, node any) {
+		arr, ok := node.([]any)
+		if !ok || len(arr) < 2 {
+			return
+		}
+		for _, e := range arr {
+			if _, isStr := e.(string); !isStr {
+				return
+			}
+		}
+		lists = append(lists, append(kernel.Path{}, p...))
+	})
+	sort.Slice(lists, func(i, j int) bool { return lists[i].String() < lists[j].String() })
+	lKinds := map[string][]kernel.Path{}
+	var lNames []string
+	for _, p := range lists {
+		k := leafKind(p)
+		if _, ok := lKinds[k]; !ok {
+			lNames = append(lNames, k)
+		}
+		lKinds[k] = append(lKinds[k], p)
+	}
+	r.Stats().Probes["list-kinds"] = max(r.Stats().Probes["list-kinds"], len(lNames))
+	// coarse kinds: the members of a Results object (one per secret of the component, with long generated
+	// names) count as one kind, so that the few top-level response lists are not drowned out
+	cKinds := map[string][]kernel.Path{}
+	var cNames []string
+	for _, p := range lists {
+		k := coarseKind(p)
+		if _, ok := cKinds[k]; !ok {
+			cNames = append(cNames, k)
+		}
+		cKinds[k] = append(cKinds[k], p)
+	}
+	r.Stats().Probes["coarse-list-kinds"] = max(r.Stats().Probes["coarse-list-kinds"], len(cNames))
+	for k := 0; k < 2*s.Samples && len(lNames) > 0; k++ {
+		ps := lKinds[lNames[hr.IntN(len(lNames))]]
+		if k%2 == 1 {
+			ps = cKinds[cNames[hr.IntN(len(cNames))]]
+		}
+		p := ps[hr.IntN(len(ps))]
+		node, _ := kernel.Get(tree, p)
+		arr := node.([]any)
+		cut := 1 + hr.IntN(len(arr)-1)
+		na := append([]any{}, arr...)
+		changed := false
+		for i := cut; i < len(na); i++ {
+			if v, ok := kernel.B64Int(na[i].(string)); ok {
+				na[i] = kernel.IntB64(v.Add(v, mbig.NewInt(1)))
+				changed = true
+			}
+		}
+		if !changed {
+			continue
+		}
+		t2 := kernel.Set(kernel.Clone(tree), p, na)
+		r.Probe("tampered-list-tail:" + coarseKind(p))
+		r.Distinct(fmt.Sprintf("bits=%d list-tail %s", s.PrimeBits, leafKind(p)))
+		deliver(fmt.Sprintf("tail:+1from%d@%s", cut, p.String()), "tamper-field", kernel.Encode(t2), &st)
+	}
 	for k := 0; k < s.Samples; k++ {
 		kind := kinds[hr.IntN(len(kinds))]
 		ps := byKind[kind]
@@ -313,6 +439,16 @@ func execC17(r *kernel.Run, s C17Spec) {
 		deliver(id, "tamper-field", kernel.Encode(t2), &st)
 	}
 	r.Sample(map[string]any{"spec": s, "artefact_bytes": len(wire), "leaf_kinds": len(kinds)})
+}
+
+// coarseKind is leafKind cut off at the first Results object.
+func coarseKind(p kernel.Path) string {
+	for i, s := range p {
+		if s == "Results" {
+			return leafKind(p[:i+1])
+		}
+	}
+	return leafKind(p)
 }
 
 func leafKindOfID(id string) string {
